@@ -71,7 +71,7 @@ def check(chk: Check) -> None:
                 complaints_r1.append('the charge sits inside a loop/handler')
             # R3: the assumption that follows the increment
             pos = p.events.index(e0)
-            nxt = [e for e in p.events[pos + 1:] if not (e.kind == 'call' and e.d.get('inlined')) and e.kind != 'return']
+            nxt = [e for e in p.events[pos + 1:] if not (e.kind == 'call' and e.d.get('inlined')) and e.kind not in ('return', 'binop')]
             if not nxt or nxt[0].kind != 'assume':
                 complaints_r3.append('no budget comparison directly after the increment on path %s' % _pathdesc(p))
                 continue
@@ -219,7 +219,20 @@ def _r4(chk: Check, R4: str) -> None:
 
 def _r5(chk: Check, R5: str, rootq: str) -> None:
     F = chk.facts
-    root_fi = F.func(rootq)
+    # the charge function: the one function that holds the increment (normally Op.eval; a helper it calls first
+    # is equally fine -- R1 already proves every eval reaches it first)
+    holders = []
+    for q, fi in F.functions.items():
+        if '.ply' in fi.module.name:
+            continue
+        for n in ast.walk(fi.node):
+            if isinstance(n, ast.Attribute) and n.attr == 'ops_evaluated' and isinstance(n.ctx, ast.Store):
+                holders.append(q)
+    if rootq in holders or not holders:
+        charge_q = rootq
+    else:
+        charge_q = holders[0]
+    root_fi = F.func(charge_q)
     root_nodes = set(ast.walk(root_fi.node))
     for m in F.modules.values():
         if '.ply' in m.name or '.gen' in m.name:
